@@ -261,6 +261,111 @@ def run_reconnect_probe(m, rec, rng, base_id, idle=3.4):
     return rec.take()
 
 
+def run_tcp_stall(ctx, rng, base_id, timeout_s=2.0, stall_s=3.0, others=4):
+    """The TCP transport unpatched (real ledgerblue commTCP against a simulated device on a loopback socket):
+    one exchange takes longer than the dongle timeout while other clients queue up. Whatever the manager
+    answers to the slow request, every later client must still get the reply to its own request (a stale
+    answer left in the byte stream would shift every later reply by one)."""
+    import ledger.hsm2dongle_tcp as ht
+    import ledgerblue.commTCP as commTCP
+    from ledger.hsm2dongle_tcp import HSM2DongleTCP
+    from ledger.protocol import HSM2ProtocolLedger
+    from comm.server import TCPServer
+    from ..simdev import SimDevice, MODE_SIGNER
+    from ..tcpdev import TcpDevice
+    dev = SimDevice(mode=MODE_SIGNER, seed="c12tcp")
+    dev.sig_from_hash = lambda h: der_sig(hashlib.sha256(b"r" + h).digest(), hashlib.sha256(b"s" + h).digest())
+    td = TcpDevice(dev)
+    events, lock, tids = [], threading.Lock(), {}
+
+    def tid():
+        i = threading.get_ident()
+        with lock:
+            return tids.setdefault(i, len(tids) + 1)
+
+    def emit(e):
+        with lock:
+            events.append(e)
+    saved = ht.getDongle
+    ht.getDongle = commTCP.getDongle
+    srv = None
+    try:
+        dongle = HSM2DongleTCP("127.0.0.1", td.port, False)
+        dongle.DONGLE_TIMEOUT = timeout_s      # only shortens what a transport that honours it would wait
+        proto = HSM2ProtocolLedger(None, dongle)
+        orig_handle = proto.handle_request
+
+        def handle_request(request):
+            rid = request.get("_verif_id", 0) if isinstance(request, dict) else 0
+            t = tid()
+            emit({"k": "begin", "r": rid, "t": t, "m": 0})
+            try:
+                return orig_handle(request)
+            finally:
+                emit({"k": "end", "r": rid, "t": t, "m": 0})
+        proto.handle_request = handle_request
+        orig_send = dongle._send_command
+
+        def send_command(*a, **k):
+            emit({"k": "apdu", "r": 0, "t": tid(), "m": 0})
+            return orig_send(*a, **k)
+        dongle._send_command = send_command
+        srv = TCPServer("127.0.0.1", 0, proto)
+        th = threading.Thread(target=lambda: srv.run(), daemon=True)
+        th.start()
+        for _ in range(5000):
+            if srv.server is not None or not th.is_alive():
+                break
+            time.sleep(0.001)
+        if srv.server is None:
+            raise core.MachineryError("manager over the TCP transport did not start")
+        addr = srv.server.server_address
+        with lock:
+            del events[:]       # the bring-up's exchanges precede the first request
+        allr = {}
+        state = {"stalled": False}
+
+        def stall(apdu):
+            # the first SIGN exchange after start-up is the slow one
+            if len(apdu) > 1 and apdu[1] == 0x02 and not state["stalled"]:
+                state["stalled"] = True
+                return stall_s
+            return 0
+        td.stall = stall
+
+        def client(i):
+            rid = base_id + i
+            req, st = make_request(rid, "sign_hash", random.Random("tcp:%s:%d" % (ctx.seed, i)))
+            allr[rid] = ("sign_hash", st)
+            try:
+                s = socket.create_connection(addr, timeout=10)
+                s.sendall(json.dumps(req).encode() + b"\n")
+                reply = read_reply(s, 30)
+            except OSError:
+                reply = None
+            emit({"k": "got", "r": rid, "t": 0, "m": reply_owner(rid, "sign_hash", st, reply, dev, allr)})
+        for i in range(others + 1):
+            req, st = make_request(base_id + i, "sign_hash", random.Random("tcp:%s:%d" % (ctx.seed, i)))
+            allr[base_id + i] = ("sign_hash", st)
+        ths = [threading.Thread(target=client, args=(i,)) for i in range(others + 1)]
+        ths[0].start()
+        time.sleep(0.3)
+        for t in ths[1:]:
+            t.start()
+            time.sleep(0.05)
+        for t in ths:
+            t.join(60)
+    finally:
+        ht.getDongle = saved
+        try:
+            if srv is not None and srv.server is not None:
+                srv.server.shutdown()
+        except Exception:
+            pass
+        td.close()
+    return events
+
+
 def run(ctx):
     res = core.Result()
     res.assumptions = [
@@ -335,6 +440,10 @@ def run(ctx):
         info[tid] = {"scenario": "link failure, failed reconnection, then (a) 3.4 s idle and (b) a slow repairing "
                                  "request 2.75 s later"}
         res.coverage["reconnection_scenarios"] = 2
+        tid = len(traces) + 1
+        traces.append({"id": tid, "ev": run_tcp_stall(ctx, ctx.rng, 970000)})
+        info[tid] = {"scenario": "unpatched TCP transport; one exchange slower than the dongle timeout, 4 clients behind it"}
+        res.coverage["tcp_transport_stall_scenarios"] = 1
     finally:
         m.stop()
         slow_thread.join(200)
